@@ -49,7 +49,7 @@ ASSUMES = ['silent() blocks are left in LIFO order (a `with` statement), normall
            'the statement is read for callbacks that do not raise (raising ones: C19_dispatch_raising, clause 28); '
            'callbacks do not re-enter the emitter; unconnect items are never None',
            'reporter histories are not run while the emitter is silenced; values and maxima are integers']
-TIMEOUT = {'quick': 10, 'thorough': 20}
+TIMEOUT = {'quick': 60, 'thorough': 120}    # a case takes < 1 ms; generous so that machine load is never read as a hang
 
 F0 = [0, 0, None]      # plain function on_ev0
 F1 = [1, 1, None]      # plain function on_ev1
